@@ -1,5 +1,6 @@
 /- Line-protocol verbs of C05 (routing). -/
 import FwdVerif.Driver.Req
+import FwdVerif.Driver.C17
 import FwdVerif.Model.C05
 
 namespace FwdVerif
@@ -20,7 +21,9 @@ def decodePacResult : List String → Option PacResult
   | _ => none
 
 /-- `base=none | static,<url…> | pac | custom`, `pactable=host,ok|fail[,str];…`, `pacdflt=…`,
-    `custable=host,<url…>;…`, `cusdflt=<url…>`, `direct=<domrules>` (absent = not configured),
+    `custable=host,<url…>;…`, `cusdflt=<url…>`, `direct=<rules>` (the `--direct-domains` values as C17's
+    rule list `+<hex>` include / `-<hex>` exclude, `~` = empty; absent = not configured; a rule outside
+    the fragment C17 models makes the request unparsable, never a verdict),
     `lhdirect=0|1`, `localnames=…`, `connectto=sh,sp,dh,dp;…` -/
 def decodeRouteCfg (t : List String) : Option RouteCfg := do
   let base ← match splitList (kvD t "base" "none") with
@@ -46,7 +49,9 @@ def decodeRouteCfg (t : List String) : Option RouteCfg := do
     | _ => none
   let dd ← match kv t "direct" with
     | none => some none
-    | some s => (decodeDomRules s).map some
+    | some s => do
+      let l ← C17.decodeRules s
+      if C17.someUnsupported l then none else some (some l)
   let lhd ← boolOf (kvD t "lhdirect" "0")
   -- `aliases=` (hosts-file aliases; the built-in names are the model's) wins over `localnames=`
   let names ← match kv t "aliases" with
@@ -164,6 +169,13 @@ def handle : List String → String
   | ["islocalhost", al, h] =>
     match bytesList al, bytesOfHex h with
     | some a, some b => ofBool (isLocalhost a b)
+    | _, _ => "bad-op"
+  | ["directmatch", rules, hosts] =>
+    -- the verdict of the `--direct-domains` list for every host: `ok <bits>` (`_` = no host)
+    match C17.decodeRules rules, bytesList hosts with
+    | some l, some hs =>
+      if !hs.all C17.isAscii || C17.someUnsupported l then "unsupported"
+      else s!"ok {C17.bits (hs.map (directMatch l))}"
     | _, _ => "bad-op"
   | ["pac", s] =>
     match bytesOfHex s with
